@@ -37,6 +37,8 @@ class Peer:
         n = self.per_res.get(name, 0)
         self.per_res[name] = n + 1
         if self.fail.get(name) == n:
+            if n % 2:
+                raise PeerDown()   # an exception without arguments is as legal as one with a message
             raise PeerDown(f'resource {name} failed at call {n}')
 
 
@@ -59,8 +61,8 @@ def make_classes(pj):
         def cap(self, d, task_id=None):
             k = day(d).date().isoformat()
             base = self.overrides[k] if k in self.overrides else self.weekly[d.weekday()]
-            if task_id is not None and task_id in self.task_limits:
-                return min(base, self.task_limits[task_id])
+            if task_id is not None and task_id in self.task_limits and base > 0:
+                return self.task_limits[task_id]   # what the resource offers to THIS task on a working day
             return base
 
         def get_available_units(self, date, task=None):
@@ -218,6 +220,12 @@ class SWorld:
                 if m['key'] in ('start', 'end', 'min_start') and v:
                     v = D(v)
                 setattr(t, m['key'], v)
+                return True
+            if k == 'reparent':
+                t, p = self.tasks.get(m['task']), self.tasks.get(m['parent']) if m.get('parent') else None
+                if t is None or (m.get('parent') and p is None):
+                    return False
+                t.parent = p
                 return True
             if k == 'cal_set_units':
                 # in-place edit of a calendar (or of the peer's table) between two calcs
